@@ -816,6 +816,22 @@ func genRelayPlan(seed uint64, tier string, focus string) *Plan {
 		p.Ops = append(p.Ops, op)
 		p.Ops = append(p.Ops, hang...)
 		hang = nil
+		if op.S["next"] == "tcp" && op.Settle && g.chance(12) {
+			// the TCP next hop takes the request and closes the connection (restart, idle timeout); the same request is
+			// then sent again: it must arrive there all the same, on a fresh connection
+			p.Ops = append(p.Ops, Op{Kind: "sink-hangup", ID: g.nextID(), S: map[string]string{"outOf": op.ID}})
+			again := op
+			again.ID = strings.Replace(op.ID, "-", "_", 1) // same length: a body that carries the id keeps its Content-Length
+			again.Data = bytes.ReplaceAll(op.Data, []byte(op.ID), []byte(again.ID))
+			again.S = map[string]string{}
+			for k, v := range op.S {
+				again.S[k] = v
+			}
+			again.S["answer"] = ""
+			again.I = nil
+			again.Settle = true
+			p.Ops = append(p.Ops, again)
+		}
 	}
 	if len(p.Ops) > 0 {
 		p.Ops[len(p.Ops)-1].Settle = true
@@ -919,6 +935,16 @@ func execRelay(t *testing.T, p *Plan) *Result {
 					}
 					st.judgeBurst(pending)
 					pending = nil
+				}
+			case "sink-hangup":
+				if j := st.done[op.S["outOf"]]; j != nil && j.em != nil && j.em.E.Proto == "tcp" && len(pending) == 0 {
+					if end := w.sinkEnds[j.em.E.ConnID]; end != nil && !end.Closed() && !end.IsReset() {
+						end.Close()
+						w.stat("probe:next-hop-closed-the-connection")
+						if !w.K.Settle(10 * time.Second) {
+							break
+						}
+					}
 				}
 			case "hangup":
 				if c := w.conns[op.Conn]; c != nil && !c.Closed() && len(pending) == 0 {
